@@ -26,6 +26,8 @@ func c10Source(text []byte, rd io.Reader) (stage string) {
 	if err != nil {
 		return "parse-error"
 	}
+	// (the mode that only logs mismatches walks the same inference and goes on)
+	analysis.AnalyzeAndCheckBounds([]parse.SourceUnit{unit}, nil, analysis.LogBoundsMismatch)
 	pi, err := analysis.AnalyzeAndCheckBounds([]parse.SourceUnit{unit}, nil, analysis.ErrorForBoundsMismatch)
 	if err != nil {
 		return "analysis-error"
@@ -103,6 +105,12 @@ func runC10(r *simrt.Run, tier Tier) Outcome {
 	case 0:
 		o := DrawOpts(r)
 		prog := GenProgram(r, o)
+		// predicate names (and with them the alphabetical order in which the
+		// bounds checker visits predicates) are shuffled against the order of
+		// definition, clauses are permuted
+		if r.Bool("c10.rename") {
+			prog = MakeVariant(r, prog, false, false).Prog
+		}
 		artefact = []byte(prog.Source(true))
 		desc = "generated program"
 	case 1:
@@ -124,6 +132,8 @@ func runC10(r *simrt.Run, tier Tier) Outcome {
 		sb.WriteString("acc(V) :- mk(M, S, L, T), :match_entry(M, /a, V).\nfld(V) :- mk(M, S, L, T), :match_field(S, /g, V).\n")
 		sb.WriteString("mk2(R) :- src(K, V) |> let R = fn:map(K, V).\nmk3(R) :- src(K, V) |> let R = fn:struct(/k, K, /v, V).\n")
 		sb.WriteString("hm(fn:map(K, V), fn:struct(/k, K), fn:list(K, V), fn:pair(K, V)) :- src(K, V).\n")
+		// a predicate that is only used negated, by predicates that sort before and after it
+		sb.WriteString("sa(\"a\").\nsb(\"b\").\nnq(X) :- sa(X), sb(X).\nna(X) :- sb(X), !nq(X).\nnb(X) :- sb(X), !nq(X), sa(Y), !nq(Y).\nnz(X) :- sa(X), !nq(X).\n")
 		sb.WriteString("Decl tu(E) bound [.TaggedUnion</kind, /a : .Struct</x : /number>, /b : .Struct<>>].\ntu({/kind: /a, /x: 1}).\n")
 		artefact = []byte(sb.String())
 		desc = "declared/temporal program"
@@ -156,11 +166,14 @@ func runC10(r *simrt.Run, tier Tier) Outcome {
 			return Violation("C10/generator", "the fixed declared/temporal artefact is not accepted as it stands (%s)\n%s", st, artefact)
 		}
 	}
-	if len(artefact) > 3000 {
-		artefact = artefact[:3000]
+	if len(artefact) > 4000 {
+		artefact = artefact[:4000]
 	}
-	fault := r.Choose(10, "c10.fault")
-	faultNames := []string{"truncate", "flip-byte", "insert-byte", "delete-byte", "header-tamper", "read-error", "empty-line", "delete-token", "duplicate-token", "swap-tokens"}
+	fault := r.Choose(11, "c10.fault")
+	faultNames := []string{"truncate", "flip-byte", "insert-byte", "delete-byte", "header-tamper", "read-error", "empty-line", "delete-token", "duplicate-token", "swap-tokens", "retype-constant"}
+	if kind == 2 && fault == 10 {
+		fault = 1
+	}
 	tokens := c10Tokens(artefact)
 	if kind != 2 && fault == 4 {
 		fault = 0
@@ -229,6 +242,20 @@ func runC10(r *simrt.Run, tier Tier) Outcome {
 			failAt = off
 		case 6:
 			mutated = append(append(append([]byte{}, artefact[:off]...), '\n', '\n'), artefact[off:]...)
+		case 10: // a constant is replaced by a constant of another kind: the text stays well-formed, the types do not
+			var consts [][2]int
+			for _, t := range tokens {
+				switch ch := artefact[t[0]]; {
+				case ch >= '0' && ch <= '9', ch == '"', ch == '/' && t[1]-t[0] > 1:
+					consts = append(consts, t)
+				}
+			}
+			if len(consts) == 0 {
+				continue
+			}
+			t := consts[(off*7+ci)%len(consts)]
+			repl := []string{"1", "\"a\"", "/a", "2.5", "[1]", "fn:pair(1, /a)", "b\"x\""}[(off+ci)%7]
+			mutated = append(append(append([]byte{}, artefact[:t[0]]...), repl...), artefact[t[1]:]...)
 		case 7, 8, 9: // token-level: delete / duplicate / swap with the next token
 			if len(tokens) < 3 {
 				continue
